@@ -7,7 +7,6 @@ package c05
 
 import (
 	"bytes"
-	"encoding/hex"
 	"fmt"
 	"io"
 	"math/rand"
@@ -217,7 +216,11 @@ func runImport(c *ev.Ctx, r *rand.Rand, n, trials int) {
 				if p := recover(); p != nil {
 					wm := wit(fmt.Sprint("panic: ", p))
 					wm["stack"] = string(debug.Stack())
-					c.Violation("import.panics", wm)
+					key := "import.panics"
+					if g.reason == "unrecoverable" {
+						key = "import.panics.unrecoverable-signature"
+					}
+					c.Violation(key, wm)
 					ierr = fmt.Errorf("panic")
 					c.Count("panicked", 1)
 				}
@@ -363,5 +366,4 @@ func runBlockResult(c *ev.Ctx, r *rand.Rand, n int) {
 	if len(g.kinds) > 0 {
 		c.NonTrivial("B" + string(raw) + string(t.bid))
 	}
-	_ = hex.EncodeToString
 }
